@@ -132,7 +132,12 @@ def run(run):
                     joins = ['FROM %s AS %s, %s AS %s SELECT %s.getName(), %s.getName()' % (ka, n1, kb, n2, n1, n2),
                              'FROM %s AS %s, %s AS %s WHERE %s.getName() == %s.getName() SELECT %s.getName()' % (kb, n2, ka, n1, n1, n2, n1)]
                     rng.shuffle(swaps)
-                    seq = seq + swaps[:3] + [rng.choice(joins)] + swaps + [rng.choice(joins)] + rng.sample(swaps, min(4, len(swaps)))
+                    # queries that use a name they do not declare (they cannot be evaluated, alone): a name an earlier
+                    # query declared must not make them answerable
+                    undecl = ['FROM %s AS k WHERE %s.getName() != "zz" SELECT k.getName()' % (ka, n2),
+                              'FROM %s AS k SELECT k.getName(), %s.getName()' % (kb, n1),
+                              'FROM %s AS %s WHERE %s.getName() != "zz" SELECT %s.getName()' % (ka, n1, n2, n1)]
+                    seq = seq + swaps[:3] + [rng.choice(joins)] + swaps + undecl + [rng.choice(joins)] + rng.sample(swaps, min(4, len(swaps))) + undecl[:2]
                     stats["alias_swap_sequences"] += 1
             if s == 0:
                 # corpus first: every accessor-with-side-effect candidate followed by a full description of the same kind
